@@ -147,6 +147,14 @@ theorem C04_call_ret (s : St) :
   obtain ⟨h1, h2, h3, h4, h5, _, _⟩ := sp_facts s.SP
   simp [exec, Spec.fetch16, Spec.fetch, rd8, push16, wr16, wr8, Impl.koron, pop16, rd16, z80helper, upd, h1, h2, h5]
 
+/-- RST p immediately followed (at p) by RET resumes right after the one-byte RST with SP restored — for
+    every restart address and every state, also when SP wraps through 0x0000 -/
+theorem C04_rst_ret (p : U16) (s : St) :
+    ∃ t u, exec Impl.koron (.rst p) s = .ok () t ∧ exec Impl.koron .ret t = .ok () u ∧
+      u.PC = s.PC ∧ u.SP = s.SP ∧ u.AF = s.AF ∧ u.toGPR = s.toGPR := by
+  obtain ⟨h1, h2, h3, h4, h5, _, _⟩ := sp_facts s.SP
+  simp [exec, push16, wr16, wr8, Impl.koron, pop16, rd16, rd8, z80helper, upd, h1, h2, h5]
+
 /-- PUSH qq ; POP qq is the identity on qq and SP, for BC DE HL AF IX IY, for every SP -/
 theorem C04_push_pop (r : Loc16) (hr : r ≠ .SP) (s : St) :
     ∃ t u, exec Impl.koron (.push r) s = .ok () t ∧ exec Impl.koron (.pop r) t = .ok () u ∧
